@@ -318,7 +318,7 @@ def run_case(case):
     res = bfs.explore(initial, enabled, replay_factory(cfg), case["depth"])
     out = {"status": "violation" if res.violations else "ok", "nontrivial": res.states > 1, "nontrivial_n": max(0, res.states - 1),
            "states": res.states, "transitions": res.transitions, "traces": res.replays, "evaluations": res.transitions,
-           "counters": {"max_depth": res.max_depth, "events_used": len(res.events_used)}, "dims": {"config": cfg},
+           "counters": {"events_used": len(res.events_used)}, "dims": {"config": cfg, "depth_reached": res.max_depth},
            "outcome": f"{res.states}", "summary": f"states={res.states} transitions={res.transitions} e.g. {res.sample_histories[:1]}"}
     if res.violations:
         out["violations"] = [{"sig": sig, "detail": msg, "case": {"config": cfg, "history": hist}} for hist, msg, sig in res.violations]
